@@ -135,6 +135,9 @@ def get_attr(it, o, name):
         if name == "__func__":
             return o.func
         return get_attr(it, o.func, name)
+    if isinstance(o, Builtin) and o.name in ("set", "frozenset") and name in ("union", "intersection"):
+        from .symcoll import set_algebra
+        return Builtin(f"set.{name}", lambda *a: set_algebra(it, name, list(a)))
     if isinstance(o, SStr):
         return _sstr_method(it, o, name)
     if isinstance(o, SInt):
